@@ -241,7 +241,7 @@ def op_token(op):
         return f"{k}:{op[1]}"
     if k == "cy":
         # control_y_gate = phase_gate; z_gate; cnot_gate; phase_gate (on the target)
-        return f"s:{op[2]},z:{op[2]},cnot:{op[1]}:{op[2]},s:{op[2]}"
+        return f"cy:{op[1]}:{op[2]}"
     if k == "measure_z":
         return f"meas:{op[1]}:{outcome_bit(op[2], op[3])}"
     if k in GATES2:
